@@ -211,16 +211,48 @@ func e1Seeds() (box []e1Seed, file []e1Seed) {
 	}
 	// S2b: hand-made boxes whose inner order matters (descriptor lists are not box children, so the tree-level
 	// deviations do not permute them)
-	for name, hx := range map[string]string{
+	rawSeeds := map[string]string{
 		"raw/esds decconfig,other,slconfig":    "0000002765736473000000000319000100040d40150000000001f4000001f40009020001060102",
 		"raw/esds decconfig,slconfig,other":    "0000002765736473000000000319000100040d40150000000001f4000001f40006010209020001",
 		"raw/esds decconfig,slconfig,slconfig": "0000002665736473000000000318000100040d40150000000001f4000001f400060102060103",
 		"raw/esds decconfig only":              "0000002065736473000000000312000100040d40150000000001f4000001f400",
 		"raw/esds decspecific,other,slconfig":  "0000002b6573647300000000031d000100041140150000000001f4000001f4000502119009020001060102",
-	} {
-		if b, err := hexDecode(hx); err == nil {
+	}
+	var rawNames []string
+	for name := range rawSeeds {
+		rawNames = append(rawNames, name)
+	}
+	sort.Strings(rawNames)
+	for _, name := range rawNames {
+		if b, err := hexDecode(rawSeeds[name]); err == nil {
 			addBox(name, "esds", b)
 		}
+	}
+	// S2c: run-length sample tables in the shapes their compact in-memory forms branch on (written by ref/tableref)
+	{
+		sd := func(ids ...uint32) []byte {
+			var e []tableref.StscEntry
+			for i, id := range ids {
+				e = append(e, tableref.StscEntry{FirstChunk: uint32(i + 1), SamplesPerChunk: uint32(1 + i%2), DescID: id})
+			}
+			t := tableref.Tables{Stsc: e}
+			return t.StscBytes()
+		}
+		addBox("raw/stsc description ids 1,2,1,2", "stsc", sd(1, 2, 1, 2))
+		addBox("raw/stsc description ids 1,1,2", "stsc", sd(1, 1, 2))
+		addBox("raw/stsc description ids 2,1,1", "stsc", sd(2, 1, 1))
+		addBox("raw/stsc description ids 1,2,3,1", "stsc", sd(1, 2, 3, 1))
+		addBox("raw/stsc description ids 3,3,3", "stsc", sd(3, 3, 3))
+		t := tableref.Tables{Stts: []tableref.Run{{Count: 2, Value: 1}, {Count: 1, Value: 0x80000000}, {Count: 3, Value: 1}, {Count: 1, Value: 0}},
+			Ctts: []tableref.Run{{Count: 1, Value: -1}, {Count: 0, Value: 5}, {Count: 2, Value: 0x7fffffff}}, CttsVersion: 1,
+			StszCount: 3, StszSizes: []uint32{0, 0xffffffff, 1}, HasStss: true, Stss: []uint32{1, 3}, Sdtp: []byte{0, 0x87, 0xff}}
+		addBox("raw/stts runs", "stts", t.SttsBytes())
+		addBox("raw/ctts v1 runs", "ctts", t.CttsBytes())
+		addBox("raw/stsz explicit", "stsz", t.StszBytes())
+		addBox("raw/stss", "stss", t.StssBytes())
+		addBox("raw/sdtp", "sdtp", t.SdtpBytes())
+		u := tableref.Tables{StszCount: 4, StszUniform: 7}
+		addBox("raw/stsz uniform", "stsz", u.StszBytes())
 	}
 	// S3: tiny generated files (progressive and fragmented, incl. encrypted-looking layouts come from C06 later)
 	for i, sp := range e1TinyProgSpecs() {
